@@ -375,9 +375,30 @@ fn gen_misuse(t: &mut Tape) -> Case {
     Case { macro_name, attr, item, misuse: Some(cat), detail }
 }
 
+/// identifier-valued options given a keyword (path keywords are identifiers to some parsers): whatever the macro makes of them,
+/// it must be a diagnostic or Rust
+const KEYWORD_VALUES: [&str; 12] = ["crate", "self", "super", "Self", "dyn", "fn", "ref", "mut", "r#fn", "r#dyn", "_", "'a"];
+
+fn gen_keyword_value(t: &mut Tape) -> Case {
+    let macro_name = e1::MACROS[t.weighted(&[5, 2, 2, 1])].to_string();
+    let kw = *t.pick(&KEYWORD_VALUES);
+    let extra = *t.pick(&["", ", unimock = false", ", ?Send", ", mock_api = M"]);
+    let (attr, item) = match t.choose(5) {
+        0 => (format!("TraitImpl, delegate_by = {kw}{extra}"), "trait Tr { fn m(&self); }".to_string()),
+        1 => (format!("pub TraitImpl, delegate_by = {kw}"), "pub trait Tr { async fn m(&self, x: i32) -> i32; }".to_string()),
+        2 => (format!("delegate_by = {kw}{extra}"), "trait Tr { fn m(&self); }".to_string()),
+        3 => (format!("Foo, mock_api = {kw}"), "fn foo(d: &impl Sized) {}".to_string()),
+        _ => (format!("mock_api = {kw}"), "trait Tr { fn m(&self); }".to_string()),
+    };
+    Case { macro_name, attr, item, misuse: None, detail: String::new() }
+}
+
 pub fn gen_case(t: &mut Tape, known: &Known) -> Case {
     if t.chance(1, 5) {
         return gen_misuse(t);
+    }
+    if t.chance(1, 25) {
+        return gen_keyword_value(t);
     }
     let macro_name = e1::MACROS[t.weighted(&[5, 2, 2, 1])].to_string();
     let item = gen_item_any(t, known);
